@@ -137,6 +137,18 @@ fn run_case(seed: u64, lean: &mut Lean, hist: &mut BTreeMap<String, u64>, sample
         }
         trace.push("12 keyspaces created".into());
         *hist.entry("cases-with-12-keyspaces".into()).or_insert(0) += 1;
+        // ... and with a dozen journal files (ids with two digits), each holding something that is not flushed yet
+        for j in 0..11u8 {
+            let n = names[j as usize % names.len()];
+            let id = live[n].id;
+            let (k, v) = (vec![b'j', b'0' + j % 10], vec![b'r', j]);
+            if let Err(e) = live[n].handle.insert(k.clone(), v.clone()) { fail!("impl-vs-oracle", "insert failed: {e:?}"); }
+            refm.get_mut(n).unwrap().insert(k.clone(), v.clone());
+            lean.ask(&format!("db.write {id}:P:{}:{}", hex(&k), hex(&v)));
+            if let Err(e) = fjall::verif::verif_rotate_journal(dbref!()) { fail!("impl-vs-oracle", "journal rotation failed: {e:?}"); }
+            lean.ask("db.rotatejournal");
+        }
+        trace.push("11 x (insert; rotate-journal)".into());
     }
     for _ in 0..nops {
         // with 0 worker threads a writer would spin forever once 4 memtables are sealed or L0 is crowded
